@@ -98,6 +98,9 @@ CYCLES = {
     # while the task waits for a child, with no other timer pending - not when it expires half a minute later
     "deadline-long-then-proc-wait": "(do (ev/with-deadline 30 (+ 1 1)) (os/execute [\"sim-child\" \"s1\" \"x0\"] :p))",
     "deadline-long-explicit-tocheck-then-proc-wait": "(let [f (coro (+ 1 1))] (ev/deadline 30 nil f) (resume f) (os/execute [\"sim-child\" \"s1\" \"x0\"] :p))",
+    # a select whose other clause is a channel that never sees traffic: the entry it leaves there is dropped by the
+    # next waiter that queues on that channel, not kept (with the finished task it pins) for ever (finding 78)
+    "select-loser-on-a-quiet-channel": "(let [a (ev/chan) t (ev/spawn (ev/select a QUIET))] (ev/sleep 0) (ev/give a 1) (ev/sleep 0))",
     "thread-chan-cancelled-giver-then-close": "(let [c (ev/thread-chan 0) f (ev/spawn (protect (ev/give c 1)))] (ev/sleep 0) (ev/cancel f :stop) (ev/sleep 0) (ev/chan-close c))",
     "chan-cancelled-waiter-then-close": "(let [c (ev/chan 0) f (ev/spawn (protect (ev/take c)))] (ev/sleep 0) (ev/cancel f :stop) (ev/sleep 0) (ev/chan-close c))",
     "spawn-file-redirect": "(let [f (file/open \"/dev/null\" :w) p (os/spawn [\"sim-child\" \"w10\" \"x0\"] :p {:out f})] (os/proc-wait p) (os/proc-close p) (file/close f))",
@@ -177,6 +180,7 @@ class C20(Driver):
         A = L.append
         if plan["kind"] == "cycle":
             body = " ".join("(do %s)" % CYCLES[k] for k in plan["cycles"])
+            A("(def QUIET (ev/chan))")
             A("(defn cycle [] %s (ev/sleep 0.001))" % body)
             A("(defn snap [n] (sim/ev :presnap n (sim/stats)) (gccollect) (ev/sleep 0.02) (gccollect) (gccollect) (sim/ev :snap n (sim/stats)))")
             A("(defn main []")
